@@ -21,6 +21,7 @@ var emptySources = []struct{ name, src string }{
 	{"literal", "{}"},
 	{"absent-path", "Patient.name.first().period"},
 	{"env", "%e"},
+	{"env-nil-slice", "%en"}, // an empty collection that is a nil slice: `var c system.Collection`, or an earlier result
 }
 
 // aggregates documented as not propagating empty
@@ -39,7 +40,9 @@ var c07SingleArg = map[string][]bool{
 	// defensible answer and not a fabricated conversion result.
 }
 
-func c07Env() map[string]any { return map[string]any{"e": system.Collection{}} }
+func c07Env() map[string]any {
+	return map[string]any{"e": system.Collection{}, "en": system.Collection(nil)}
+}
 
 // c07Alternatives: other well-typed values for a literal companion (receiver or argument):
 // identity elements, zero, negative, boundary and fractional numbers; empty and short strings.
@@ -90,7 +93,7 @@ func init() {
 
 	core.Register(&core.Check{
 		ID:          "C07",
-		Rule:        "complete enumeration: every binary operator x operand position x 3 empty sources x 10 typed other operands (and both-empty); unary/type/indexer operators; every function-table name (read from the tree) x every arity Compile accepts x every position holding the empty collection with the other positions well-typed, and each other literal position additionally varied over 0/1/-1/2/1.0/0.5/MaxInt32 resp. ''/'a'/'abc'/'1' resp. true/false; every program that takes the empty collection from %e is also evaluated on one compiled expression after %e was bound to an Integer, a String and a Boolean (and those after the empty binding), with the freshly compiled expression as reference; non-trivial = distinct (program, outcome)",
+		Rule:        "complete enumeration: every binary operator x operand position x 4 empty sources x 10 typed other operands (and both-empty); unary/type/indexer operators; every function-table name (read from the tree) x every arity Compile accepts x every position holding the empty collection with the other positions well-typed, and each other literal position additionally varied over 0/1/-1/2/1.0/0.5/MaxInt32 resp. ''/'a'/'abc'/'1' resp. true/false; every program that takes the empty collection from %e is also evaluated on one compiled expression after %e was bound to an Integer, a String and a Boolean (and those after the empty binding), with the freshly compiled expression as reference; non-trivial = distinct (program, outcome)",
 		Assumptions: []string{"well-typed companion arguments come from the specification signature table of C16"},
 		Subs: func(tier string) []core.Sub {
 			tbl := funcs.AddExperimentalFuncs(funcs.Clone())
@@ -100,7 +103,7 @@ func init() {
 			}
 			sort.Strings(names)
 			return []core.Sub{
-				{Name: "binary-operators", N: len(binops) * len(emptySources), Note: "13 operators x 3 empty sources; inner: 2 positions x 10 other operands + both-empty", Run: func(i int, r *core.Rec) {
+				{Name: "binary-operators", N: len(binops) * len(emptySources), Note: "13 operators x 4 empty sources; inner: 2 positions x 10 other operands + both-empty", Run: func(i int, r *core.Rec) {
 					op, es := binops[i/len(emptySources)], emptySources[i%len(emptySources)]
 					check := func(src, pos, other string) {
 						res := lib.Run(src, input(), c07Env())
@@ -175,7 +178,7 @@ func init() {
 						}
 					}
 				}},
-				{Name: "functions", N: len(names), Note: "table name x accepted arity x position (receiver, each argument) x 3 empty sources", Run: func(i int, r *core.Rec) {
+				{Name: "functions", N: len(names), Note: "table name x accepted arity x position (receiver, each argument) x 4 empty sources", Run: func(i int, r *core.Rec) {
 					name := names[i]
 					fn := tbl[name]
 					if lib.FuncName(fn.Func) == "fhirpath/internal/funcs.unimplemented" {
